@@ -83,6 +83,8 @@ func runParser(b *decl.Built, cfg *ref.Config, argv []string, ro runOpts) (rr *r
 				if len(args) > 0 {
 					return args[1:], nil
 				}
+			case ref.HandlerDropAll:
+				return nil, nil
 			case ref.HandlerInsert:
 				return append([]string{"ins"}, args...), nil
 			case ref.HandlerError:
@@ -175,6 +177,17 @@ func errType(err error) string {
 // expectedCalls: the argument texts a callback option must have seen, in order.
 func expectedCalls(o *decl.Opt, occ []ref.Occ) []string {
 	var out []string
+	if len(occ) == 0 {
+		// not on the command line: called once per default value, if any
+		for _, t := range o.Defaults {
+			if o.Type == decl.TFuncIE {
+				n, _ := strconv.ParseInt(t, o.BaseN(), 64)
+				t = strconv.Itoa(int(n))
+			}
+			out = append(out, t)
+		}
+		return out
+	}
 	for _, oc := range occ {
 		if o.Type == decl.TFunc0 || o.Type == decl.TFunc0E {
 			out = append(out, "")
